@@ -30,7 +30,8 @@ mpz_urandomb (mpz_ptr rop, gmp_randstate_t rstate, mp_bitcnt_t nbits)
   mp_ptr rp;
   mp_size_t size;
 
-  size = BITS_TO_LIMBS (nbits);
+  /* BITS_TO_LIMBS (nbits) would wrap to 0 for bit counts near the maximum */
+  size = nbits / GMP_NUMB_BITS + (nbits % GMP_NUMB_BITS != 0);
   rp = MPZ_REALLOC (rop, size);
 
   _gmp_rand (rp, rstate, nbits);
